@@ -10,7 +10,7 @@
 From Coq Require Import ZArith List.
 From Falcon Require Import Base.Res IL.Const IL.Expr IL.Func Exec.Sem
      Isa.A64 Isa.A64Lift Isa.A64Run Isa.A64Proofs Isa.A64Sim Isa.A64Arith Isa.A64Arith2
-     Isa.A64Branch Isa.A64Branch2 Isa.C03Check Isa.A64Tie Isa.A64Flags Isa.A64Flags2 Isa.A64Mem Isa.A64Load Isa.A64Store Isa.A64Pair Isa.A64Pair2 Isa.A64Wb.
+     Isa.A64Branch Isa.A64Branch2 Isa.C03Check Isa.A64Tie Isa.A64Flags Isa.A64Flags2 Isa.A64Mem Isa.A64Load Isa.A64Store Isa.A64Pair Isa.A64Pair2 Isa.A64Wb Isa.A64Pair3 Isa.A64RegOff.
 Import ListNotations.
 Local Open Scope Z_scope.
 
@@ -128,6 +128,22 @@ Theorem ldst_imm_sim : forall addr size opc mode (scaled : bool) imm rn rt,
   sim addr (ILdStImm size opc mode scaled imm rn rt).
 Proof. exact A64Wb.ldst_imm_sim. Qed.
 Print Assumptions ldst_imm_sim.
+
+(* 4i. LDPSW (pre-index, post-index, signed offset) *)
+Theorem ldpsw_sim : forall addr mode imm7 rt2 rn rt,
+  mode <> PNoAlloc -> 0 <= rt < 32 -> 0 <= rt2 < 32 -> 0 <= rn < 32 ->
+  sim addr (ILdStPair 1 mode true imm7 rt2 rn rt).
+Proof. exact A64Pair3.ldpsw_sim. Qed.
+Print Assumptions ldpsw_sim.
+(* 4j. register-offset addressing: LDR/STR (register) and all B / H / SB / SH / SW variants, offset register
+   extended with UXTW / LSL / SXTW / SXTX (option<1> = 1, as decoded), optionally scaled by the access size *)
+Theorem ldst_reg_sim : forall addr size opc rm option (sbit : bool) rn rt,
+  0 <= size < 4 -> 0 <= opc < 4 -> decode_ldst_opc_ok size opc = true ->
+  (option = 2 \/ option = 3 \/ option = 6 \/ option = 7) ->
+  0 <= rm < 32 -> 0 <= rn < 32 -> 0 <= rt < 32 ->
+  sim addr (ILdStReg size opc rm option sbit rn rt).
+Proof. exact A64RegOff.ldst_reg_sim. Qed.
+Print Assumptions ldst_reg_sim.
 
 (* 5. branches *)
 Theorem b_sim : forall addr imm26, sim addr (IBImm false imm26).
